@@ -75,7 +75,8 @@ def h1_history(draw: Any) -> Dict[str, Any]:
             steps.append({"op": "terminated"})
         elif kind == "error":
             steps.append({"op": "error", "what": draw(st.sampled_from(
-                ["malformed", "server_name", "ws_invalid", "app_crash", "ws_early_data"]))})
+                ["malformed", "server_name", "ws_invalid", "app_crash", "ws_early_data",
+                 "ws_server_name"]))})
         else:
             steps.append({"op": "peer_loss", "how": draw(st.sampled_from(
                 ["eof", "reset", "write_fail"])),
@@ -342,6 +343,11 @@ async def run_h1(env: Any, case: Dict[str, Any], app: Any) -> Dict[str, Any]:
                 conn.send(b"GET / HTTP/9.9\r\nHost: x\r\n\r\n")
             elif what == "server_name":
                 conn.send(request_bytes("/x", host="unknown.invalid"))
+            elif what == "ws_server_name":
+                # a well-formed WebSocket handshake for a name this server does not serve: 404
+                conn.send(b"GET /ws HTTP/1.1\r\nHost: unknown.invalid\r\nUpgrade: websocket\r\n"
+                          b"Connection: Upgrade\r\nSec-WebSocket-Version: 13\r\n"
+                          b"Sec-WebSocket-Key: dGhlIHNhbXBsZSBub25jZQ==\r\n\r\n")
             elif what == "ws_invalid":
                 conn.send(b"GET /ws HTTP/1.1\r\nHost: example.com\r\nUpgrade: websocket\r\n"
                           b"Connection: Upgrade\r\nSec-WebSocket-Version: 12\r\n\r\n")
@@ -715,7 +721,7 @@ def judge_end(case: Dict[str, Any], obs: Any) -> None:
 def run_case(case: Dict[str, Any]) -> CaseInfo:
     case = dict(case)
     cfg = {"keep_alive_timeout": case["T"], "server_names": []}
-    if any(s.get("what") == "server_name" for s in case.get("steps", [])):
+    if any(s.get("what") in ("server_name", "ws_server_name") for s in case.get("steps", [])):
         cfg["server_names"] = ["example.com", "x"]
     if case.get("opening") == "h2c_unknown_host":
         cfg["server_names"] = ["example.com", "x"]
